@@ -314,3 +314,44 @@ Proof.
   intros ch Gc. rewrite <- (siblings_are_children t n p q0 i l ch Wt Gp E Gc).
   destruct (nth_error l (S i)) as [nx|] eqn:Nx; [|reflexivity]. apply before_ok_node. now apply nth_error_In in Nx.
 Qed.
+
+(* ---- the uniqueness test of Tree._register is exactly the collision predicate ---- *)
+Lemma collides_sound t p pq ch d :
+  WF t -> parent_path p (forest_of t) = Some pq -> get_ch pq (forest_of t) = Some ch ->
+  collides t p d = true -> In d (map rdid ch).
+Proof.
+  intros H Gp G Col. set (f := forest_of t) in *. assert (ND := wf_nodup t H). assert (Z := wf_pos t H). fold f in ND, Z.
+  unfold collides in Col. apply existsb_exists in Col. destruct Col as (c & Hc & Pc).
+  apply (idx_get_keys t c d H) in Hc. fold f in Hc, Pc.
+  destruct (parent_of c f) as [q|] eqn:Pq; [|discriminate]. apply Nat.eqb_eq in Pc. subst q.
+  apply (parent_of_rows c f p ND) in Pq. destruct Pq as (inf & Row).
+  rewrite <- (parent_path_owner p f pq ch Gp G) in Row.
+  destruct (rows_owner_member pq f ch c inf ND Z G Row) as (x & Hx & Rx & _).
+  assert (Px : In x (pre_f f)) by (apply (get_ch_pre pq f ch G); now apply in_pre_f_top).
+  assert (K := keys_in f x Px). rewrite Rx in K.
+  assert (NK : NoDup (map fst (keys f))) by (now rewrite keys_fst).
+  assert (E := NoDup_map_inj fst _ _ _ NK K Hc eq_refl). injection E as <-. now apply in_map.
+Qed.
+
+Theorem collides_iff_sibling t p ch d : WF t -> children_of p (forest_of t) = Some ch ->
+  (collides t p d = true <-> sibling_with (forest_of t) p d 0).
+Proof.
+  intros H Gc. split; [|now apply collides_of_sibling].
+  intros Col. destruct (children_of_split _ _ _ Gc) as (pq & Gp & G).
+  assert (X := collides_sound t p pq ch d H Gp G Col). apply in_map_iff in X. destruct X as (c & Ed & Hc).
+  exists ch, c. repeat split; auto. intros Ez. apply (wf_pos t H). rewrite <- Ez.
+  unfold ids. apply in_map. apply (get_ch_pre pq _ ch G). now apply in_pre_f_top.
+Qed.
+
+(* no over-refusal on the add route: without a collision (and with a valid [before]) the node is added *)
+Theorem add_accepted w ti p d explicit k b t id ch :
+  WFw w -> get_tree w ti = Some t -> children_of p (forest_of t) = Some ch ->
+  (match explicit with Some e => Some e | None => calc_id (calc t) d end) = Some id ->
+  ~ sibling_with (forest_of t) p id 0 -> before_ok (norm_before b) ch = true ->
+  fst (op_add w ti p d explicit k b) = Ok [next w].
+Proof.
+  intros H Gt Gc Eid NS Hb. assert (Wt := WFw_tree w ti t H Gt).
+  destruct (children_of_split _ _ _ Gc) as (pq & Gp & G).
+  unfold op_add. rewrite Gt, Gp, G, Hb. cbn [negb]. rewrite Eid.
+  destruct (collides t p id) eqn:Col; [|reflexivity]. exfalso. apply NS. now apply (collides_iff_sibling t p ch id Wt Gc).
+Qed.
